@@ -9,8 +9,22 @@ export GOCACHE="$V/.cache/go-build"
 export VERIF_DIR="$V"
 mkdir -p "$V/bin" "$V/.cache"
 id="$1"; shift
+# VERIF_REPO / VERIF_OUT are for self-tests of the machinery (tools/seedcheck.sh) only: the checks are built against
+# a scratch copy of the library and write evidence/replays to a scratch directory. Registered commands never set them.
+if [ -n "${VERIF_OUT:-}" ]; then
+  mkdir -p "$VERIF_OUT"; cp "$V/known_findings.txt" "$VERIF_OUT/"; export VERIF_DIR="$VERIF_OUT"
+fi
 if [ "$id" = "C20" ]; then
+  if [ -n "${VERIF_REPO:-}" ]; then export C20_SRC="$VERIF_REPO"; fi
+  if [ -n "${VERIF_OUT:-}" ]; then export C20_OUT="$VERIF_OUT"; fi
   exec "$V/c20.sh" "$@"
+fi
+if [ -n "${VERIF_REPO:-}" ]; then
+  alt="$V/.cache/alt-$$"; mkdir -p "$alt"
+  sed "s|=> /repo|=> $VERIF_REPO|" "$V/mc/go.mod" > "$alt/go.mod"; cp "$VERIF_REPO/go.sum" "$alt/go.sum"
+  ( cd "$V/mc" && go build -modfile="$alt/go.mod" -o "$alt/check" ./cmd/check ) || { rm -rf "$alt"; echo "BUILD-FAILED: harness does not build against $VERIF_REPO" >&2; exit 2; }
+  "$alt/check" "$id" "$@"; rc=$?
+  rm -rf "$alt"; exit $rc
 fi
 ( cd "$V/mc" && cp /repo/go.sum go.sum 2>/dev/null; go build -o "$V/bin/check" ./cmd/check ) || { echo "BUILD-FAILED: harness does not build against /repo" >&2; exit 2; }
 exec "$V/bin/check" "$id" "$@"
